@@ -769,28 +769,39 @@ def build_all(fieldkeys_small, fieldkeys_real, have, extra_thr=None):
     return bins, logs
 
 
-def run_binary(binary, lines, timeout=900):
-    """run the implementation harness on the lines; a crash costs the case it died on, the rest is re-submitted.
-    returns (outputs or None for a crashed case, list of crashed indices, thr header)"""
+def run_binary(binary, lines, timeout=60):
+    """run the implementation harness on the lines; a crash or a hang costs the case it died on, the rest is
+    re-submitted.  A hang is cut after `timeout` seconds (20 s for the re-submissions); after 3 hangs the remaining
+    cases of this binary are given up.  returns (outputs or None for a lost case, [(index, rc)], thr header)"""
     outs = [None] * len(lines)
     crashed = []
     start = 0
     hdr = None
+    hangs = 0
     while start < len(lines):
         rc, o, err = vf.run_lines(binary, "".join(lines[start:]), timeout=timeout)
         h = [l for l in o if l.startswith("#thr")]
         if h:
             hdr = h[0]
-        o = [l for l in o if not l.startswith("#")]
+        o = [l for l in o if not l.startswith("#")]     # lines are flushed one by one: every line in o is complete
         for i, l in enumerate(o[:len(lines) - start]):
             outs[start + i] = l
         if rc == 0 and len(o) >= len(lines) - start:
             break
         k = start + len(o)
         if k < len(lines):
-            crashed.append((k, rc))
+            crashed.append((k, "hang" if rc == 124 else rc))
+        if rc == 124:
+            hangs += 1
+            timeout = 20
+            if hangs >= 3:
+                for j in range(k + 1, len(lines)):
+                    crashed.append((j, "not-run-after-3-hangs"))
+                break
         start = k + 1
         if len(crashed) > 25:
+            for j in range(start, len(lines)):
+                crashed.append((j, "not-run-after-25-crashes"))
             break
     return outs, crashed, hdr
 
@@ -857,7 +868,7 @@ def run_stream(chk, label, bins, tag, drv, cases, kthr, sthr, stats):
             outs[j] = o2[k]
         crashed += [(rest[k], rc) for k, rc in cr2]
         for j in iso:
-            o1, cr1, _ = run_binary(b, [lines[j]], timeout=120)
+            o1, cr1, _ = run_binary(b, [lines[j]], timeout=20)
             outs[j] = o1[0]
             crashed += [(j, rc) for _, rc in cr1]
         return fk, outs, crashed, hdr
@@ -900,14 +911,17 @@ def run_stream(chk, label, bins, tag, drv, cases, kthr, sthr, stats):
         stats["by_size"][b] = stats["by_size"].get(b, 0) + 1
         case = {"variant": v, "op": op, "field": fk, "p": p, "kthr": kthr, "sthr": sthr, "args": tok_args(op, a), "stream": label}
         inputs_normal = all((not x) or x[-1] % p != 0 for ch, x in zip(SIG[op], a) if ch == "P")
+        if str(crashed_set.get(i, "")).startswith("not-run"):
+            stats["not_run"] += 1
+            continue
         if i in crashed_set or iout[i] is None:
-            klass = "crash"
+            klass = "hang" if crashed_set.get(i) == "hang" else "crash"
             if op == "power_compose" and not norm(a[0]):
                 klass = "zero-polynomial"
             if op in ("add_s", "sub_s") and a[0] and not norm(a[0]):
                 klass = "unnormalised-zero-operand"
-            chk.fail_input("Poly1Dom::" + op, klass, case, "a result", "process died (rc=%s)" % crashed_set.get(i, "?"),
-                           "the implementation harness died on this case")
+            chk.fail_input("Poly1Dom::" + op, klass, case, "a result", "no answer (%s)" % crashed_set.get(i, "?"),
+                           "the implementation harness died or hung on this case")
             continue
         if i % 211 == 0:
             chk.sample({"stream": label, "variant": v, "field": FIELD_NAMES[fk], "p": p, "args": tok_args(op, a)[:300], "impl": iout[i][:300]}, limit=16)
@@ -970,7 +984,7 @@ def main(tier, replay=None):
         chk.broke("cannot read KARA_THRESHOLD / SQR_THRESHOLD from givpoly1kara.inl")
         kth, sth = kth or 50, sth or 50
     stats = {"by_op": {}, "by_variant": {}, "by_field": {}, "by_size": {}, "corr": 0, "lazy_unnormalised": {}, "oracle_only": 0,
-             "in_known_defect_class_oracle_only": 0,
+             "in_known_defect_class_oracle_only": 0, "not_run": 0,
              "known_classes": set((k.get("site"), k.get("klass")) for k in vf.load_known()
                                   if k.get("property") == "C08" and k.get("status") == "known")}
     # 3. call forms that must at least instantiate
@@ -1027,6 +1041,8 @@ def main(tier, replay=None):
     chk.cov["traces_validated_against_impl"] = stats["corr"]
     chk.cov["cases_judged_by_oracle_only_no_model"] = stats["oracle_only"]
     chk.cov["cases_in_a_known_defect_class_judged_by_oracle_only"] = stats["in_known_defect_class_oracle_only"]
+    if stats["not_run"]:
+        chk.broke("%d cases were not run because the implementation harness hung or crashed repeatedly" % stats["not_run"])
     chk.cov["variants"] = len(VARIANTS)
     chk.cov["thresholds_from_source"] = [kth, sth]
     chk.cov["distribution_by_op"] = stats["by_op"]
